@@ -26,7 +26,6 @@ struct HistoryHooks {
     bool allow_trim{true};
     bool allow_prioritise{true};
     bool allow_time{true};
-    unsigned submit_weight{9};                                   //!< of 20 op slots, how many are plain submissions (rest fixed as documented)
 };
 
 /** true if the transaction has an enforced nLockTime or a BIP68 relative lock */
@@ -54,7 +53,7 @@ public:
     int reorgs{0}, maxdepth{0}, blocks_disconnected{0}, blocks_mined{0};
     bool reorg_with_sensitive{false};
     size_t max_pool{0};
-    MempoolAcceptResult last_tx_result{MempoolAcceptResult::Failure(TxValidationState{})};
+    std::optional<MempoolAcceptResult> last_tx_result;          //!< result of the last single-transaction submission
 
 private:
     MempoolSim& ms;
